@@ -370,8 +370,11 @@ def stream(rng, families, n, events=None, now0=NOW0, open_line="open a mem", dum
                     ms = rng.choice([1, 5, 999, 1000, 1001, 1500, 2000, 5000, 100000, 3600000])
                     ops.append(f"sleep {ms}")
                     now += ms
+                elif ev == "fail":
+                    ops.append(f"failset {rng.choice([1, 1, 2, 3])}")      # the next backend writes are rejected
                 elif ev == "reopen":
-                    ops += ["ldump", "close", "reopen", "ldump"]     # the two logical dumps must be equal (C11)
+                    # the two logical dumps must be equal (C11); no injected failure may be pending at Close
+                    ops += ["failset 0", "ldump", "close", "reopen", "ldump"]
                 else:
                     ops.append(ev)
                 break
